@@ -436,8 +436,9 @@ def H5(vc):
 
 
 # ----------------------------------------------------------------------------------------------- H6
-@harness('H6', targets='kopf._core.reactor.processing.process_resource_event', props=['C03', 'C08', 'C17', 'C14'],
-         clauses=['order', 'index_gate', 'apply_unless_deleted', 'patch_threaded', 'inside_throttled', 'recall_flag', 'passes_through'],
+@harness('H6', targets='kopf._core.reactor.processing.process_resource_event', props=['C03', 'C08', 'C17', 'C14', 'C12'],
+         clauses=['order', 'index_gate', 'apply_unless_deleted', 'patch_threaded', 'inside_throttled', 'throttled_at_call_site',
+                  'posting_context', 'recall_flag', 'passes_through'],
          canaries=['canary.always_applies', 'canary.never_forgets', 'canary.remaining_never_changes'],
          trusted=['throttlers.throttled by contract T2: yields should_run; swallows an Exception of the block iff should_run',
                   'application.apply by contract A1: returns (applied, resource_version, remaining_patch) or raises',
@@ -454,6 +455,12 @@ def H6(vc):
     (DELETED, throttled, or an error) so that carried transformations are not lost; the result is apply's
     resource version.  Everything from indexing on runs inside the `throttled` block and only if it
     yields should_run.  recall is told noticed_by_listing == (event type is None).
+    (C12) Called the way the operator calls it -- running.py's functools.partial plus queueing.worker's keywords, neither
+    of which passes `no_throttling` -- the cycle runs under throttlers.throttled with the object's own
+    memory.error_throttler: an unexpected error pauses this object instead of escaping into the worker.
+    (documented kopf.event()/info()/logger-to-K8s-events of docs/events.rst, need of posting.enqueue) before any step
+    that runs handlers (indexing, causes) the posting context variables are set in this task: the queue := the
+    event_queue given, the loop := the running loop.
     """
     from kopf._cogs.structs import patches
     etype = vc.fin('event.type', ETYPES)
@@ -485,7 +492,10 @@ def H6(vc):
             vc.emit('forget', raw_body)
             await suspend('memories.forget')
     should_run = vc.bool('throttled.should_run')
-    no_throttling = vc.nondet(2, 'no_throttling?') == 1
+    # 0: not passed at all -- the real call site (running.py partial + queueing.worker); 1/2: passed by tests/simulations
+    throttling_arg = vc.nondet(3, 'no_throttling: omitted (operator) / False / True')
+    no_throttling = throttling_arg == 2
+    throttling_kw = {} if throttling_arg == 0 else {'no_throttling': no_throttling}
     pressure = StubEvent('stream_pressure')
     error_delays = Opaque('error_delays')
     settings = Opaque('settings', queueing=Opaque('queueing', error_delays=error_delays))
@@ -539,13 +549,14 @@ def H6(vc):
     vc.used('processing.process_resource_causes', 'H2/H3/H4'); vc.used('application.apply', 'A1')
     vc.used('throttlers.throttled', 'T2'); vc.used('indexing.index_resource', 'I2'); vc.used('inventory.ResourceMemories.recall', 'V1')
     clock = Clock()
+    running_loop = StubLoop(clock)
     ctxvar = lambda name: Opaque(name, set=lambda v: vc.emit(name + '.set', v))
     ld = vc.load('kopf._core.reactor.processing', 'process_resource_event', stubs={
         'loggers.LocalObjectLogger': lambda **kw: NullLogger(), 'loggers.TerseObjectLogger': lambda **kw: NullLogger(),
         'loggers.ObjectLogger': lambda **kw: NullLogger(),
         'throttlers.throttled': Throttled,
         'posting.event_queue_loop_var': ctxvar('event_queue_loop_var'), 'posting.event_queue_var': ctxvar('event_queue_var'),
-        'asyncio.get_running_loop': lambda: StubLoop(clock),
+        'asyncio.get_running_loop': lambda: running_loop,
         'indexing.index_resource': index_resource,
         'process_resource_causes': process_resource_causes,
         'application.apply': apply,
@@ -560,7 +571,7 @@ def H6(vc):
             lifecycle=lifecycle, indexers=indexers, registry=registry, settings=settings, memories=Memories(), memobase=memobase,
             resource=resource, raw_event=raw_event, event_queue=event_queue, stream_pressure=pressure,
             operator_paused=operator_paused, resource_indexed=resource_indexed, operator_indexed=operator_indexed,
-            consistency_time=consistency_time, no_throttling=no_throttling),
+            consistency_time=consistency_time, **throttling_kw),
             on_suspend=lambda site: (clock.advance(0), pressure.havoc(only_set=True)) and None)
     except _HandlingError as e:
         raised = e
@@ -586,12 +597,23 @@ def H6(vc):
     vc.ensure('apply_unless_deleted', Iff('apply' in names, And(runs, Not(deleted), causes_returned)))
     # -- inside the throttled block
     inner = [i for i, n in enumerate(names) if n in ('index', 'drop', 'wait', 'causes', 'apply')]
-    if not no_throttling:
+    if throttling_arg == 0:
+        vc.ensure('throttled_at_call_site', names.count('throttled') == 1 and names.count('throttled.enter') == 1)
+    if not no_throttling and 'throttled' in names:
         ent, ext = pos('throttled.enter'), pos('throttled.exit')
         vc.ensure('inside_throttled', len(ent) == 1 and len(ext) == 1 and all(ent[0] < i < ext[0] for i in inner))
         kw = tr[pos('throttled')[0]][1]
         vc.ensure('passes_through', kw.get('throttler') is throttler and kw.get('delays') is error_delays and kw.get('wakeup') is pressure)
+    elif not no_throttling:
+        vc.ensure('inside_throttled', False)                    # throttling was asked for (or not declined) but not used
     vc.ensure('inside_throttled', Implies(Not(runs), len(inner) == 0))
+    # -- K8s-event posting context of this object's task, before anything that runs handlers
+    handler_steps = pos('index') + pos('causes')
+    if handler_steps:
+        for var, want in (('event_queue_var', event_queue), ('event_queue_loop_var', running_loop)):
+            sets = pos(var + '.set')
+            vc.ensure('posting_context', len(sets) >= 1 and sets[0] < min(handler_steps)
+                      and all(tr[i][1] is want for i in sets))
     vc.ensure('inside_throttled', Implies(Not(runs), result is None and raised is None))
     # -- the remaining patch is threaded through the cycles
     body = None
